@@ -287,6 +287,13 @@ def oracle_c04(case, i, ep):
     for fld, cfld in (("a", "a"), ("b", "b"), ("del", "del"), ("exp_a", "exp_a"), ("exp", "exp")):
         for c in range(3):
             chk("we.%s[%d] over carriers" % (fld, c), bal["we"][fld][c], S(lambda b: b["we"][cfld][c]))
+    # per carrier: produced-and-used energy by source and by service adds up
+    for cr, b in bcr.items():
+        chk("[%s] prod.epus_an by source" % cr, b["prod"]["epus_an"], sum(map(Fraction, b["prod"]["epus_by_src_an"].values())))
+        for j, m in b["prod"]["epus_by_srv_by_src_an"].items():
+            chk("[%s] prod.epus_by_src_an[%s] by service" % (cr, j), b["prod"]["epus_by_src_an"].get(j, 0), sum(map(Fraction, m.values())))
+        chk("[%s] used.epus_an by service" % cr, b["used"]["epus_an"], sum(map(Fraction, b["used"]["epus_by_srv_an"].values())))
+        chk("[%s] prod.an by source" % cr, b["prod"]["an"], sum(map(Fraction, b["prod"]["by_src_an"].values())))
     # breakdowns
     chk("used.epus by service", bal["used"]["epus"], sum(map(Fraction, bal["used"]["epus_by_srv"].values())))
     chk("used.epus by carrier", bal["used"]["epus"], sum(map(Fraction, bal["used"]["epus_by_cr"].values())))
